@@ -29,7 +29,8 @@ type WorkerPool struct {
 	activeWorkers int32
 	// Logger for worker pool events
 	logger *AbsfsNFS
-	// R29: Mutex to serialize Resize calls
+	// R29: Mutex to serialize Resize and Stop calls (Resize replaces
+	// maxWorkers, taskQueue, ctx and cancel while the workers are stopped)
 	resizeMu sync.Mutex
 	// closeMu prevents Submit from sending on a closed taskQueue.
 	// Submit holds RLock; Stop holds Lock before closing the channel.
@@ -165,6 +166,11 @@ func (p *WorkerPool) SubmitWait(execute func() interface{}) (interface{}, bool) 
 
 // Stop shuts down the worker pool gracefully
 func (p *WorkerPool) Stop() {
+	// Serialize with Resize, which stops the workers, replaces taskQueue,
+	// ctx and cancel, and restarts the pool.
+	p.resizeMu.Lock()
+	defer p.resizeMu.Unlock()
+
 	if !p.stopWorkers() {
 		return
 	}
@@ -210,9 +216,9 @@ func (p *WorkerPool) stopWorkers() bool {
 func (p *WorkerPool) Stats() (maxWorkers int, activeWorkers int, queuedTasks int) {
 	p.resizeMu.Lock()
 	maxWorkers = p.maxWorkers
+	queuedTasks = len(p.taskQueue)
 	p.resizeMu.Unlock()
 	activeWorkers = int(atomic.LoadInt32(&p.activeWorkers))
-	queuedTasks = len(p.taskQueue)
 	return
 }
 
